@@ -11,15 +11,18 @@ Deductive part:
                           state of all variables it may modify), diagnostics['converged'] = True implies that every
                           entry strictly below the diagonal of the returned T has modulus <= tol; the returned Q is
                           P0^H Q_accum and T is the final iterate; guards; n = 0.
-  pure.iteration          quaternion_schur_pure and quaternion_schur_pure_implicit, the whole iteration, every n, budget, shift mode
+  iteration               quaternion_schur_pure, quaternion_schur_pure_implicit, quaternion_schur_unified (aed, ds; scheduled and trailing
+                          shifts) and quaternion_schur_experimental (aed_windowed, francis_ds): the whole iteration, every n, budget, shift
                           and exit: matrix-level loop invariants in the free algebra (Q_accum unitary; Q_accum^H (P0 A P0^H) Q_accum - H = D,
                           where D collects the rotated deflation zeroings; inner sweep: Q_iter unitary, R_work = Q_iter (H - sigma I),
-                          resp. H = W H_s W^H, Q_accum = Q_s W^H), with the entry-level loops entering through closed forms that are
-                          discharged at index level (pure.entry_loops: shift subtraction / addition, deflation test and running
-                          maximum as ghost functions).  Result: Q unitary and Q^H A Q - T = D exactly on every exit.
-The loop bodies of the other three variants (Givens sweeps on windows, real expansion) are outside the engine's reach:
-that their iterate stays unitarily similar to A through every shift schedule, deflation decision and early exit is decided by
-the bounded stand-in: every variant x shift x budget (0, 1, 2, 5, default) on n <= 5 (6) matrix classes."""
+                          resp. H = W H_s W^H, Q_accum = Q_s W^H; the in-place row / column kernels by their rows.spec / cols.spec
+                          contracts), the shift loops of the pure variant entering through closed forms that are discharged at index
+                          level (entry_loops: shift subtraction / addition, deflation test and running maximum as ghost functions).
+                          Result: Q unitary and Q^H A Q - T = D exactly on every exit; that every zeroed entry is below the deflation
+                          test is proved at index level for the two pure variants and sampled for the windowed ones.
+The loop body of the real-expansion variant quaternion_schur (4n x 4n real arithmetic, nested single-shift routine) is outside the engine's
+reach: that its iterate stays unitarily similar to A is decided by the bounded stand-in, which runs every variant x shift x budget
+(0, 1, 2, 5, default) on n <= 5 (6) matrix classes."""
 from __future__ import annotations
 
 import ast
@@ -515,6 +518,8 @@ def pure_iteration(rep: Report):
     def np_array(x, dtype=None):
         if isinstance(x, list) and x and all(isinstance(e, EntryQ) for e in x):
             return SCol(cur().fresh_name("vec"), len(x))
+        if isinstance(x, list) and x and all(isinstance(r_, list) and all(isinstance(e, (SReal, Fraction, int, float)) for e in r_) for r_ in x):
+            return Scratch((len(x), len(x[0])))                 # a small real array that only feeds np.linalg.eigvals
         raise OutOfReach("np.array form")
 
     def k_hessenbergize(I, args, kwargs):
@@ -632,7 +637,7 @@ def pure_iteration(rep: Report):
             rec.append((f"sweep.{phase}.H_is_W_H0_WH", st2, "normal-form", 0.0, None))
 
         def establish(self, it, fr, start):
-            cur().ghost["sweep_head"] = (fr.vars["H"], fr.vars["Q_accum"])
+            cur().ghost["sweep_head"] = (HMat(fr.vars["H"].p), HMat(fr.vars["Q_accum"].p))      # copies: the windowed variants update H and Q_accum in place
             self.check(fr, "establish")
 
         def havoc(self, it, fr, k):
@@ -641,7 +646,8 @@ def pure_iteration(rep: Report):
             n = fr.vars["n"]
             W = HMat(NC.atom(Atom(c.fresh_name("W"), n, n, "orth", alg="H")))
             if c.ghost.get("_havoc_kind") == "exhausted":
-                c.ghost["Qi_exit"] = W
+                prev = c.ghost.get("Qi_exit")
+                c.ghost["Qi_exit"] = W if prev is None else HMat(W.p @ prev.p)       # several sweeps in one pass (double shift): their product
             fr.vars["H"] = SMat(W.p @ H0.p @ W.p.star)
             fr.vars["Q_accum"] = HMat(Q0.p @ W.p.star)
 
@@ -660,6 +666,10 @@ def pure_iteration(rep: Report):
             g.setdefault("emit", []).append(("main.establish.Q_accum_unitary", st, "normal-form", 0.0, None))
             g["D_entry"] = HMat(Qa.p.star @ B.p @ Qa.p - Hm.p)      # = E0: what check_hessenberg removed
             g["n"] = fr.vars["n"]
+            if "hi" in self.modifies:
+                hi = fr.vars.get("hi")
+                v = smt.prove(c.hyps(), sand(SBool.mk(SInt.lift(hi) >= 0), SBool.mk(SInt.lift(hi) <= SInt.lift(g["n"]) - 1)).z, 10)
+                g.setdefault("emit", []).append(("main.establish.window_end_inside_the_matrix", v.status, v.backend, v.secs, None))
 
         def havoc(self, it, fr, k):
             c = cur()
@@ -678,7 +688,16 @@ def pure_iteration(rep: Report):
             c.assume(L >= 0)
             fr.vars["diag"] = {"iterations": SymList(L, "iterations"), "converged": False, "iterations_run": 0}
             g.pop("E_step", None)
-            g["head_H"] = fr.vars["H"]
+            g["Qi_exit"] = None
+            if "hi" in self.modifies:
+                hi = SInt.var(c.fresh_name("hi"))
+                c.assume(sand(hi >= 0, hi <= n - 1))
+                fr.vars["hi"] = hi
+                g["deflate_first"] = True
+            if "shift_idx" in self.modifies:
+                si = SInt.var(c.fresh_name("shift_idx"))
+                c.assume(si >= 0)
+                fr.vars["shift_idx"] = si
 
         def preserve(self, it, fr, k):
             c = cur()
@@ -686,9 +705,19 @@ def pure_iteration(rep: Report):
             rec = g.setdefault("emit", [])
             for nm, s_ in after_body(fr):
                 rec.append((f"main.preserve.{nm}", s_, "normal-form", 0.0, None))
+            if "hi" in self.modifies:
+                hi = fr.vars.get("hi")
+                v = smt.prove(c.hyps(), sand(SBool.mk(SInt.lift(hi) >= 0), SBool.mk(SInt.lift(hi) <= SInt.lift(g["n"]) - 1)).z, 10)
+                rec.append(("main.preserve.window_end_stays_inside_the_matrix", v.status, v.backend, v.secs, None))
             dg = fr.vars.get("diag")
             ok = isinstance(dg, dict) and dg.get("converged") is False
             rec.append(("main.preserve.a_pass_that_does_not_stop_leaves_converged_False", smt.PROVED if ok else smt.REFUTED, "syntactic", 0.0, None))
+
+    def combine(D, E, Qi):
+        """discrepancy after a pass: the pure / implicit / unified variants rotate first and deflate afterwards, the experimental one deflates first"""
+        if cur().ghost.get("deflate_first"):
+            return Qi.p @ (D.p + E.p) @ Qi.p.star
+        return Qi.p @ D.p @ Qi.p.star + E.p
 
     def after_body(fr):
         """(Q_accum, H) after one complete pass against the head state (Qa, Qa^H B Qa - D): unitary, and the discrepancy is Qi D Qi^H + E"""
@@ -696,35 +725,131 @@ def pure_iteration(rep: Report):
         g = c.ghost
         B, Qa, D = g["hess"]["B"], g["Qa"], g["D"]
         Qn, Hn, Qi, E = fr.vars.get("Q_accum"), fr.vars.get("H"), g.get("Qi_exit"), g.get("E_step")
-        if not all(isinstance(x, HMat) for x in (Qn, Hn, Qi)) or E is None:
+        if Qi is None:
+            Qi = HMat(NC.eye(g["n"]))             # no sweep in this pass (empty shift list)
+        if E is None:
+            E = HMat(NC.zero(g["n"], g["n"]))       # no deflation loop on this path
+        if not all(isinstance(x, HMat) for x in (Qn, Hn, Qi)):
             return [("state_after_a_pass_is_matrix_valued", smt.REFUTED)]
         s1 = ncm.nc_equal_obligation(Qn.p.star @ Qn.p, NC.eye(Qn.p.rows), c.hyps())[0]
-        Dn = Qi.p @ D.p @ Qi.p.star + E.p
+        Dn = combine(D, E, Qi)
         s2 = ncm.nc_equal_obligation(Qn.p.star @ B.p @ Qn.p - Hn.p, Dn, c.hyps())[0]
         g["D_after"] = HMat(Dn)
         return [("Q_accum_stays_unitary", s1), ("discrepancy_is_rotated_old_discrepancy_plus_this_pass_zeroings", s2)]
 
+    def embedded(B, s_idx, n):
+        """the n x n matrix diag(I, B, I) with the 2 x 2 block B at rows / columns s, s+1: unitary when B is (C09.lemma.blockdiag_unitary); the in-place
+        kernels apply_left_rows / apply_right_cols multiply by it / by its conjugate transpose (C10 obligations rows.spec / cols.spec)"""
+        c = cur()
+        memo = c.ghost.setdefault("embedded", {})
+        key = (id(B), str(SInt.lift(s_idx)) if not isinstance(s_idx, int) else s_idx)
+        if key not in memo:
+            if not isinstance(B, HMat) or ncm.nc_equal_obligation(B.p.star @ B.p, NC.eye(B.p.rows), c.hyps())[0] != smt.PROVED:
+                raise OutOfReach("2 x 2 block that is not known to be unitary")
+            ncm.dims_equal(B.p.rows, 2, "block.rows")
+            c.require("index.range", sand(SBool.mk(SInt.lift(s_idx) >= 0), SBool.mk(SInt.lift(s_idx) + 1 < SInt.lift(n))), "rows s, s+1 inside the matrix")
+            memo[key] = NC.atom(Atom(c.fresh_name("Emb"), n, n, "orth", alg="H"))
+        return memo[key]
+
+    def k_left(I, args, kwargs):
+        if len(args) != 3 or kwargs:
+            raise OutOfReach("row kernel called with another signature than (M, s, B): its contract does not apply")
+        M, s_idx, B = args
+        M.p = embedded(B, s_idx, M.p.rows) @ M.p
+        return None
+
+    def k_right(I, args, kwargs):
+        if len(args) != 3 or kwargs:
+            raise OutOfReach("column kernel called with another signature than (M, s, B): its contract does not apply")
+        M, s_idx, B = args
+        M.p = M.p @ embedded(B, s_idx, M.p.cols).star
+        return None
+
+    SHF = z3.Function("SHIFTS", z3.IntSort(), z3.RealSort())
+
+    def k_shifts(I, args, kwargs):
+        L = SInt.var(cur().fresh_name("n_shifts"))
+        cur().assume(L >= 0)
+        return SymList(L, "shift_schedule", entry=lambda j: SReal.mk(SHF(SInt.lift(j))))
+
+    def eigvals(Bm):
+        from ..idx import CScal
+        c = cur()
+        return [CScal(SReal.var(c.fresh_name("ev_re")), SReal.var(c.fresh_name("ev_im"))) for _ in range(2)]
+
+    class MainU(Main):
+        modifies = ("H", "Q_accum", "diag", "shift_idx")
+
+    class MainE(Main):
+        modifies = ("H", "Q_accum", "diag", "hi")
+
+    class ScanDeflate(LoopRule):
+        """experimental variant, while i > lo: scans upwards from hi, zeroes at most one sub-diagonal entry and moves hi below it:  H - E,  lo <= hi' <= hi"""
+        skip_body = True
+        modifies = ("H", "hi", "i")
+
+        def havoc(self, it, fr, k):
+            c = cur()
+            Hm = fr.vars["H"]
+            E = fresh_hmat(c.fresh_name("E"), Hm.shape[0], Hm.shape[1])
+            fr.vars["H"] = SMat(Hm.p - E.p)
+            h2 = SInt.var(c.fresh_name("hi"))
+            c.assume(sand(h2 >= fr.vars["lo"], h2 <= fr.vars["hi"]))
+            fr.vars["hi"] = h2
+            fr.vars["i"] = SInt.var(c.fresh_name("i"))
+            c.ghost["E_step"] = E
+
+    class MaxOnly(LoopRule):
+        """for j in range(lo + 1, hi + 1): reads H, folds max_sub"""
+        skip_body = True
+        modifies = ("max_sub",)
+
+        def havoc(self, it, fr, k):
+            ms = SReal.var(cur().fresh_name("max_sub"))
+            cur().assume(ms >= 0)
+            fr.vars["max_sub"] = ms
+
     lib = Library("nc")
     lib.qmode = "H"
+    lib.np.table["linalg"].table["eigvals"] = eigvals
     lib.alloc_hooks.append(alloc)
     lib.np.table["array"] = np_array
     contracts = dict(ALGEBRA)
+    QUn = SC + "quaternion_schur_unified"
+    QEn = SC + "quaternion_schur_experimental"
+    contracts.update({QUn + ".<apply_left_rows>": k_left, QUn + ".<apply_right_cols>": k_right, SC + "_estimate_shifts_power_deflate": k_shifts,
+                      QEn + ".<apply_left_rows>": k_left, QEn + ".<apply_right_cols>": k_right})
     contracts.update({HBm + "hessenbergize": k_hessenbergize, HBm + "check_hessenberg": k_check, TDm + "householder_matrix": k_house, SC + "_strictly_lower_max": k_lowmax})
     QI = SC + "quaternion_schur_pure_implicit"
     variants = {QN: ({(QN, 0): Main(), (QN, 1): ShiftSub(), (QN, 2): QRSweep(), (QN, 3): ShiftAdd(), (QN, 4): Deflate()},
                      ["sweep.establish.Q_iter_unitary", "sweep.establish.R_work_is_Q_iter_times_shifted_H", "sweep.preserve.Q_iter_unitary", "sweep.preserve.R_work_is_Q_iter_times_shifted_H"]),
                 QI: ({(QI, 0): Main(), (QI, 1): ImplicitSweep(), (QI, 2): Deflate()},
-                     ["sweep.establish.W_unitary", "sweep.establish.H_is_W_H0_WH", "sweep.preserve.W_unitary", "sweep.preserve.H_is_W_H0_WH"])}
-    for qn, mode in [(q_, m_) for q_ in (QN, QI) for m_ in ("none", "rayleigh")]:
+                     ["sweep.establish.W_unitary", "sweep.establish.H_is_W_H0_WH", "sweep.preserve.W_unitary", "sweep.preserve.H_is_W_H0_WH"]),
+                QUn: ({(QUn, 0): MainU(), (QUn, 2): ImplicitSweep(), (QUn, 3): Deflate()},
+                      ["sweep.establish.W_unitary", "sweep.establish.H_is_W_H0_WH", "sweep.preserve.W_unitary", "sweep.preserve.H_is_W_H0_WH"]),
+                QEn: ({(QEn, 0): MainE(), (QEn, 1): ScanDeflate(), (QEn, 3): ImplicitSweep(), (QEn, 4): MaxOnly()},
+                      ["sweep.establish.W_unitary", "sweep.establish.H_is_W_H0_WH", "sweep.preserve.W_unitary", "sweep.preserve.H_is_W_H0_WH", "main.preserve.window_end_stays_inside_the_matrix",
+                       "main.establish.window_end_inside_the_matrix"])}
+    todo = [(q_, m_, dict(shift_mode=m_)) for q_ in (QN, QI) for m_ in ("none", "rayleigh")]
+    todo += [(QUn, f"{v_}.{'scheduled' if pre else 'trailing'}_shifts", dict(variant=v_, precompute_shifts=pre, aed_factor="sym")) for v_ in ("aed", "ds") for pre in (True, False)]
+    todo += [(QEn, v_, dict(variant=v_, window="sym")) for v_ in ("aed_windowed", "francis_ds")]
+    for qn, mode, extra in todo:
         rules, sweep_clauses = variants[qn]
 
-        def setup(I, ctx, mode=mode):
+        def setup(I, ctx, mode=mode, extra=extra):
             (n,) = dims(ctx, "n")
             ctx.assume(n >= 1, base=True)
             A = fresh_hmat("A", n, n)
             K, tol = SInt.var("max_iter"), SReal.var("tol")
             ctx.assume(sand(K >= 0, tol >= 0), base=True)
-            return [A], dict(max_iter=K, tol=tol, return_diagnostics=True, shift_mode=mode), (A, n)
+            kw = dict(extra)
+            if kw.get("window") == "sym":
+                kw["window"] = SInt.var("window")
+                ctx.assume(kw["window"] >= 1, base=True)
+            if kw.get("aed_factor") == "sym":
+                kw["aed_factor"] = SReal.var("aed_factor")
+                ctx.assume(kw["aed_factor"] > 0, base=True)
+            return [A], dict(max_iter=K, tol=tol, return_diagnostics=True, **kw), (A, n)
 
         def post(I, ctx, outcome, val, aux, mode=mode):
             A, n = aux
@@ -740,8 +865,8 @@ def pure_iteration(rep: Report):
             out.append(("Q_is_unitary", s1, "normal-form", 0.0, None))
             # which discrepancy belongs to this exit: loop ran to completion -> D of the head state; break inside a pass -> D after that pass
             if g.get("phase") == "generic":
-                Qi, E, D0 = g.get("Qi_exit"), g.get("E_step"), g.get("D")
-                D = HMat(Qi.p @ D0.p @ Qi.p.star + E.p) if (Qi is not None and E is not None and D0 is not None) else None
+                Qi, E, D0 = g.get("Qi_exit") or HMat(NC.eye(n)), g.get("E_step") or HMat(NC.zero(n, n)), g.get("D")
+                D = HMat(combine(D0, E, Qi)) if D0 is not None else None
             elif g.get("phase") == "exhausted":
                 D = g.get("D")
             else:
@@ -752,7 +877,7 @@ def pure_iteration(rep: Report):
                 st, be, secs, wit = ncm.nc_equal_obligation(Q.p.star @ A.p @ Q.p - T.p, D.p, c.hyps())
                 out.append(("QH_A_Q_minus_T_is_the_accumulated_zeroings", st, be, secs, wit or None))
             return out
-        run_case(rep, P, qn, f"iteration.shift_{mode}", setup, post, lib=lib, contracts=contracts, loop_rules=rules,
+        run_case(rep, P, qn, f"iteration.{'shift_' if qn in (QN, QI) else ''}{mode}", setup, post, lib=lib, contracts=contracts, loop_rules=rules,
                  clauses=["returns_Q_T_diagnostics", "Q_is_unitary", "QH_A_Q_minus_T_is_the_accumulated_zeroings", "main.establish.Q_accum_unitary"] + sweep_clauses +
                          ["main.preserve.Q_accum_stays_unitary", "main.preserve.discrepancy_is_rotated_old_discrepancy_plus_this_pass_zeroings",
                           "main.preserve.a_pass_that_does_not_stop_leaves_converged_False"], replay=replay_variants, timeout_s=30, loop_end=True, max_paths=600)
@@ -994,7 +1119,7 @@ def bounded(rep: Report, tier, seed):
 def run(tier, seed):
     rep = Report(P, tier, seed, "exploration")
     rep.assumptions += [
-        "the iteration bodies of three of the five variants (Givens sweeps on windows, real expansion) are not executed by the engine: the flag and composition obligations hold for an arbitrary state left by the loop, the similarity of the iterate is decided by the bounded stand-in; quaternion_schur_pure and quaternion_schur_pure_implicit are proved through their whole iteration (householder_matrix unitary by its C09 contract; the accumulated deflation zeroings D are bounded entrywise by the deflation test, their norm is not summed up)",
+        "the iteration body of the real-expansion variant quaternion_schur is not executed by the engine (its flag and composition obligations hold for an arbitrary state left by the loop; the similarity of its iterate is decided by the bounded stand-in); the four quaternion-domain variants are proved through their whole iteration (householder_matrix unitary by its C09 contract; the accumulated deflation zeroings D are bounded entrywise by the deflation test - proved for the pure variants, sampled for the windowed ones - and their norm is not summed up)",
         "hessenbergize, check_hessenberg, quat_matmat, quat_hermitian, real_expand / real_contract are used through contracts (C09, C01, C02)",
         "floats as reals; 'accuracy governed by the deflation tolerance' is checked with the explicit bound 1e-7 n ||A||",
     ]
